@@ -45,6 +45,8 @@ pub enum Step {
     W(Vec<u8>),
     /// pause, milliseconds
     P(u64),
+    /// write `total` bytes of generated text at once: lines of `line` bytes (0 = no newline at all)
+    F { total: usize, line: usize, tag: u32 },
 }
 
 #[derive(Debug, Clone, Serialize, Deserialize, Default, PartialEq, Eq)]
@@ -103,6 +105,7 @@ fn steps_json(steps: &[Step]) -> Value {
             .map(|s| match s {
                 Step::W(b) => json!({ "w": hex(b) }),
                 Step::P(ms) => json!({ "p": ms }),
+                Step::F { total, line, tag } => json!({ "f": [total, line, tag] }),
             })
             .collect(),
     )
@@ -111,8 +114,10 @@ fn steps_json(steps: &[Step]) -> Value {
 pub fn script_bytes(steps: &[Step]) -> Vec<u8> {
     let mut v = vec![];
     for s in steps {
-        if let Step::W(b) = s {
-            v.extend_from_slice(b);
+        match s {
+            Step::W(b) => v.extend_from_slice(b),
+            Step::F { total, line, tag } => v.extend_from_slice(&crate::fill::fill_bytes(*total, *line, *tag)),
+            Step::P(_) => {}
         }
     }
     v
